@@ -285,6 +285,7 @@ impl Property for C13 {
         if nhp > 0 {
             lines[0].push("me = #{ &. }".to_string());
             lines[0].push("deeper = #{ me }".to_string());
+            lines[0].push("rme0 = &.".to_string());
             let cur = lines.last_mut().unwrap();
             let mut handles: Vec<(String, usize)> = Vec::new(); // (variable, process index)
             for i in 0..nhp {
@@ -319,6 +320,17 @@ impl Property for C13 {
                 names.push("hvi".to_string());
                 hv_expected.push(format!("[{}]", inner_exp.join(", ")));
             }
+            // a handle taken after a tail call (the process's first frame is then another function), and
+            // handles of the session's own process taken on different lines
+            cur.push("hq = @{ [] ^me }".to_string());
+            cur.push("hqr = !hq".to_string());
+            cur.push("hvq = [&hqr =&hq]".to_string());
+            names.push("hvq".to_string());
+            hv_expected.push("[Ok]".to_string());
+            cur.push("rme1 = &.".to_string());
+            cur.push("hvr = [&rme0 =&rme1]".to_string());
+            names.push("hvr".to_string());
+            hv_expected.push("[Ok]".to_string());
             let his: Vec<String> = (0..nhp).map(|i| format!("[hi{i}, hj{i}, hk{i}]")).collect();
             cur.push(format!("hvs = [{}, {}]", his.join(", "), names.join(", ")));
         }
